@@ -42,6 +42,33 @@ def check_recorded(ctx, rule):
     ctx.floor(rule, len(npaths), 4, 'paths of connection_got_new_message')
 
 
+def check_selection(ctx, rule):
+    """The selected connection changes only on a successful `connection` command: to None for `all`, to a connection that
+    was found (tested non-None before the store) otherwise.  Also used by C10 and C11."""
+    repo = ctx.repo
+    f = repo.func('Controller.connection_command')
+    n = 0
+    for p in paths_of(repo, f, unroll=1):
+        for i, e in enumerate(p.events):
+            if e.kind == 'store' and e.target == 'self.current_connection':
+                n += 1
+                v = norm(e.value)
+                before = [(x.text, x.value) for x in p.events[:i] if x.kind == 'decide']
+                if v == 'None':
+                    ok = ("'all' == arg", True) in before
+                    why = 'the selection is cleared only by `connection all`'
+                else:
+                    ok = (v + ' is None', False) in before or (v, True) in before
+                    why = 'the selection is set only to a connection that was looked up and found'
+                ctx.check(ok, rule, 'selection:store:%s' % ('clear' if v == 'None' else 'set'), f.loc(e.node), why,
+                          'the selected connection is overwritten with %s before/without testing that it names a connection: a mistyped name silently changes the selection' % v[:60])
+    ctx.floor(rule, n, 2, 'stores to current_connection in connection_command')
+    f_gc = repo.func('Controller._get_connection')
+    rets = {norm(p.outcome[1]) for p in paths_of(repo, f_gc, unroll=1) if p.outcome[0] == 'return'}
+    ctx.check('None' in rets and all(r == 'None' or r.startswith('<elem') for r in rets), rule, 'selection:lookup-returns-listed-connection', f_gc.loc(),
+              '_get_connection returns one of the listed connections or None', '_get_connection returns %s' % sorted(rets))
+
+
 def run(ctx):
     repo = ctx.repo
     cg = repo.callgraph()
@@ -63,9 +90,20 @@ def run(ctx):
                                                         ('Controller.connection_got_new_message', lambda w: w.kind == 'mutate' and w.via == 'append')], floor=2)
     check_writers(ctx, 'C06.1', CI, 'message_list', [('ConnectionImpl.__init__', lambda w: w.fresh and isinstance(w.stmt.value, ast.List)),
                                                       ('ConnectionImpl.message', lambda w: w.kind == 'mutate' and w.via == 'append')], floor=2)
-    raising = {'resolve': ['RuntimeError']}
-    cpaths = paths_of(repo, f_cimsg, asserts='ignore',
-                      may_raise=lambda e: ['RuntimeError'] if (e.ftext or '').endswith('message.resolve') else ())
+    from .common import raise_model
+    rm = raise_model(repo)
+
+    def mr_cim(e):
+        ft = e.ftext or ''
+        if ft.endswith('message.resolve'):
+            return ['RuntimeError']
+        if ft == 'self.listener.connection_got_new_message' or ft.startswith('logger.') or ft.startswith('logging.'):
+            return ()
+        from ..flow import handler_stack
+        if not handler_stack(f_cimsg, e.node):
+            return ()           # only failures that a handler of this function turns back into normal control flow matter here
+        return rm(e)
+    cpaths = paths_of(repo, f_cimsg, asserts='fork', may_raise=mr_cim)
     nn = 0
     for p in cpaths:
         rec = [i for i, e in enumerate(p.events) if e.kind == 'call' and e.ftext == 'self.message_list.append']
@@ -154,6 +192,7 @@ def run(ctx):
                   '%s never (re)displays messages: a change applies to later arrivals only' % cname,
                   '%s reaches the message display (%s)' % (cname, [g.short for g in (cg.find_path(f, lambda g: g is f_mshow) or [])]))
     check_writers(ctx, 'C06.4', CTRL, 'display_matcher', [('Controller.__init__', lambda w: w.fresh), ('Controller.filter_command', None)], floor=2)
+    check_selection(ctx, 'C06.4')
     check_writers(ctx, 'C06.4', CTRL, 'current_connection', [('Controller.__init__', lambda w: w.fresh), ('Controller.connection_command', None)], floor=3)
 
     # ---- C06.5 matchers are pure ------------------------------------------------------------------------------------------
